@@ -17,7 +17,7 @@ class DimwiseCheck(Check):
     run_timeout_s = 120.0
     real, stub = REAL, STUB
     excluded_configs = ["local grid families in extend-split other than Trapezoidal, Lagrange(p=2), Clenshaw-Curtis, Gauss-Legendre, Simpson: BSplineGrid asserts in this environment, LejaGrid takes minutes per run",
-                        "global grid families other than GlobalTrapezoidalGrid in the dimension-wise strategy (Simpson, Romberg, balanced Romberg, modified Lagrange do not run in the pinned environment without extra options)",
+                        "global grid families in the dimension-wise strategy other than Trapezoidal, Lagrange(p=2), B-spline(p=3), HighOrder: Simpson, Romberg, balanced Romberg and the modified Lagrange basis do not run in the pinned environment without extra options",
                         "lmax == 1 (initialize_refinement asserts lmax > 1)",
                         "coarsening versions 0, 1, 4, 5 (not among the versions the properties name; 4/5 print and assert internally)",
                         "grid families other than GlobalTrapezoidalGrid for the structure/combination monitors"]
@@ -197,11 +197,24 @@ class C05(DimwiseCheck):
         else:
             cfg = DS.gen_cfg(r, tier)
             cfg["max_intervals"] = 10 ** 6      # the point limits of the schedule bound the size here
+            cfg["grid"] = r.choice(["GlobalTrapezoidalGrid"] * 5 + DS.GLOBAL_GRIDS[1:])   # every global grid family that runs here
         cfg["strategy"] = strategy
         cfg["use_epoch"] = False
         cfg["nnoise"] = r.choice([1, 2, 3])
         cfg["max_points"] = 10 ** 6
-        return {"config": cfg, "ops": gen_limit_ops(stream(rk, "ops"), tier)}
+        ops = gen_limit_ops(stream(rk, "ops"), tier)
+        if strategy == "dimension_wise" and cfg["grid"] != "GlobalTrapezoidalGrid":
+            for op in ops:      # hierarchical / high-order global rules are slow: keep their histories short
+                op[1]["max_evaluations"] = min(op[1]["max_evaluations"], 60)
+            ops = [op for i, op in enumerate(ops) if i == 0 or op[1]["max_evaluations"] > ops[i - 1][1]["max_evaluations"]]
+            if r.random() < 0.6:
+                # stop after every single refinement step (continue with the current point count as limit): transient states
+                # between two ordinary stops become stops themselves
+                ops = [["run", {"max_evaluations": 0}]] + [["step", {"max_evaluations": -1}] for _ in range(r.randint(3, 6))]
+            cfg["dim"] = min(cfg["dim"], 2); cfg["a"] = cfg["a"][:cfg["dim"]]; cfg["b"] = cfg["b"][:cfg["dim"]]
+            cfg["lmin"] = min(cfg["lmin"], 2); cfg["lmax"] = max(2, min(cfg["lmax"], cfg["lmin"] + 1))
+            cfg["max_intervals"], cfg["max_points"] = 24, 400     # beyond that the run is cut (excluded), these rules are slow
+        return {"config": cfg, "ops": ops}
 
     def simplify(self, s):
         if s["config"].get("strategy") in ("standard", "dim_adaptive"):
@@ -217,6 +230,8 @@ class C05(DimwiseCheck):
             yield c
         for i, op in enumerate(s["ops"]):
             m = op[1]["max_evaluations"]
+            if op[0] == "step":
+                continue
             for v in (0, 8, 30, 100):
                 if v < m and (i == 0 or v > s["ops"][i - 1][1]["max_evaluations"]):
                     n = copy.deepcopy(s); n["ops"][i][1]["max_evaluations"] = v; yield n
@@ -236,11 +251,14 @@ class C05(DimwiseCheck):
             try:
                 if op[0] == "run":
                     ret = sim.perform(tol=-1.0, max_evaluations=op[1]["max_evaluations"], reevaluate_at_end=reevaluate)
+                elif op[0] == "step":
+                    ctx.probe("single_step_stop")
+                    ret = sim.cont(tol=-1.0, max_evaluations=int(sim.sa.get_total_num_points()))
                 else:
                     ctx.probe("continued")
                     ret = sim.cont(tol=-1.0, max_evaluations=op[1]["max_evaluations"])
             except DS.StopRun:
-                raise Excluded("no stop within the evaluation cap")
+                raise Excluded("no stop within the evaluation cap / size budget")
             ctx.state(sim.structure_key())
             out.append((ret, sim, orc))
             yield i, op, ret, sim, orc
@@ -255,7 +273,10 @@ class C05(DimwiseCheck):
         plain = []
         for i, op, ret, sim, orc in self.drive(sched, ctx, False):
             label = "%s#%d" % (op[0], i)
-            want, S, n = orc.at_stop(ret[3], label, points_weights=(sim.strategy == "dimension_wise"))
+            # clause (5) is stated for nodal (non-hierarchical) quadrature grids
+            nodal = sim.strategy == "dimension_wise" and sched["config"].get("grid", "GlobalTrapezoidalGrid") in ("GlobalTrapezoidalGrid", "GlobalHighOrderGrid")
+            last = i == len(sched["ops"]) - 1
+            want, S, n = orc.at_stop(ret[3], label, points_weights=nodal, final_combi=(op[0] != "step" or last))
             ctx.probe("stop_checked")
             plain.append((np.array(ret[3], dtype=float), S, n, orc))
         if "result" in ctx.tainted:
